@@ -29,21 +29,30 @@ fn fee_cfg(v: &VammSnap) -> &'static str {
 #[derive(Default)]
 pub struct C04 {
     view: Option<PosView>,
+    sh: FundingShadow,
 }
 
 impl Monitor for C04 {
     fn prop(&self) -> &'static str {
         "C04"
     }
+    fn begin(&mut self, _w: &World, s0: &Snap, _r: &mut Report) {
+        self.sh.begin(s0);
+    }
     fn pre(&mut self, w: &World, op: &Op, pre: &Snap, _r: &mut Report) {
         self.view = None;
         if let Some((sender, eng::ExecuteMsg::ClosePosition { vamm, .. }, _)) = engine_msg(op) {
             if let Some(vi) = w.vamm_idx(vamm) {
-                self.view = pos_view(w, pre, vi, sender);
+                self.view = pos_view_sh(w, pre, vi, sender, &mut self.sh);
             }
         }
     }
     fn post(&mut self, w: &World, st: &Step, r: &mut Report) {
+        self.sh.observe(w, st);
+        if self.sh.divergences > 0 {
+            r.count_n("stored-checkpoint-differs-from-observed-settlements", self.sh.divergences);
+            self.sh.divergences = 0;
+        }
         let Some((sender, msg, _)) = engine_msg(&st.op) else { return };
         let trader_op = matches!(
             msg,
@@ -159,23 +168,32 @@ impl Monitor for C04 {
 #[derive(Default)]
 pub struct C05 {
     view: Option<PosView>,
+    sh: FundingShadow,
 }
 
 impl Monitor for C05 {
     fn prop(&self) -> &'static str {
         "C05"
     }
+    fn begin(&mut self, _w: &World, s0: &Snap, _r: &mut Report) {
+        self.sh.begin(s0);
+    }
     fn pre(&mut self, w: &World, op: &Op, pre: &Snap, _r: &mut Report) {
         self.view = None;
         if let Some((sender, msg, _)) = engine_msg(op) {
             if let eng::ExecuteMsg::WithdrawMargin { vamm, .. } | eng::ExecuteMsg::OpenPosition { vamm, .. } | eng::ExecuteMsg::DepositMargin { vamm, .. } = msg {
                 if let Some(vi) = w.vamm_idx(vamm) {
-                    self.view = pos_view(w, pre, vi, sender);
+                    self.view = pos_view_sh(w, pre, vi, sender, &mut self.sh);
                 }
             }
         }
     }
     fn post(&mut self, w: &World, st: &Step, r: &mut Report) {
+        self.sh.observe(w, st);
+        if self.sh.divergences > 0 {
+            r.count_n("stored-checkpoint-differs-from-observed-settlements", self.sh.divergences);
+            self.sh.divergences = 0;
+        }
         let Some((sender, msg, funds)) = engine_msg(&st.op) else { return };
         if !st.out.ok {
             return;
@@ -210,7 +228,7 @@ impl Monitor for C05 {
                 // R1 maintenance after the trade
                 if let Some(p) = st.post.pos(vi, sender) {
                     if p.size != 0 {
-                        if let Some(v) = pos_view(w, &st.post, vi, sender) {
+                        if let Some(v) = pos_view_sh(w, &st.post, vi, sender, &mut self.sh) {
                             if let Some((ratio, which)) = v.ratio_vamm() {
                                 r.count("R1-ratio-checked");
                                 let maint = st.post.eng.maint;
@@ -270,7 +288,7 @@ impl Monitor for C05 {
                     }
                     // free collateral afterwards: the engine's own query and the monitor's recomputation
                     let fc_q = w.free_collateral(vi, sender).ok();
-                    let fc_m = pos_view(w, &st.post, vi, sender).and_then(|v| v.free_collateral(st.post.eng.initial));
+                    let fc_m = pos_view_sh(w, &st.post, vi, sender, &mut self.sh).and_then(|v| v.free_collateral(st.post.eng.initial));
                     let fcb = fc_m.map(|x| if x.is_zero() { "=0" } else if x <= Big::u(1) { "+1" } else { ">0" }).unwrap_or("?");
                     r.case(format!("withdraw|F{}|fc{}|{}", sgn(&f), fcb, if view.pos.long_dir { "long" } else { "short" }));
                     if let Some(fc) = fc_q {
@@ -333,18 +351,22 @@ impl Monitor for C05 {
 pub struct C06 {
     view: Option<PosView>,
     engine_ratio: Option<i128>,
+    sh: FundingShadow,
 }
 
 impl Monitor for C06 {
     fn prop(&self) -> &'static str {
         "C06"
     }
+    fn begin(&mut self, _w: &World, s0: &Snap, _r: &mut Report) {
+        self.sh.begin(s0);
+    }
     fn pre(&mut self, w: &World, op: &Op, pre: &Snap, r: &mut Report) {
         self.view = None;
         self.engine_ratio = None;
         if let Some((_, eng::ExecuteMsg::Liquidate { vamm, trader, .. }, _)) = engine_msg(op) {
             if let Some(vi) = w.vamm_idx(vamm) {
-                self.view = pos_view(w, pre, vi, trader);
+                self.view = pos_view_sh(w, pre, vi, trader, &mut self.sh);
                 self.engine_ratio = w.margin_ratio(vi, trader).ok();
                 // R0: keep the monitor honest against the engine's public MarginRatio query
                 if let (Some(v), Some(er)) = (&self.view, self.engine_ratio) {
@@ -367,6 +389,11 @@ impl Monitor for C06 {
         }
     }
     fn post(&mut self, w: &World, st: &Step, r: &mut Report) {
+        self.sh.observe(w, st);
+        if self.sh.divergences > 0 {
+            r.count_n("stored-checkpoint-differs-from-observed-settlements", self.sh.divergences);
+            self.sh.divergences = 0;
+        }
         let Some((sender, eng::ExecuteMsg::Liquidate { vamm, trader, .. }, _)) = engine_msg(&st.op) else { return };
         let Some(vi) = w.vamm_idx(vamm) else { return };
         let Some(view) = self.view.clone() else { return };
